@@ -246,6 +246,17 @@ def _bo_domain(inplace):
         for a in _bo_arrays(tier, seed):
             for keep in (False, True):
                 yield dict(args=[a.copy(), inplace, keep], key="%s shape=%s keep=%s" % (a.dtype.descr, a.shape, keep))
+            if a.ndim >= 1:
+                # the same values in arrays that are not contiguous: every other row of a longer array, every other column
+                import numpy as np
+                for keep in (False, True):
+                    big = np.zeros((a.shape[0] * 2,) + a.shape[1:], dtype=a.dtype)
+                    big[::2] = a
+                    yield dict(args=[big[::2], inplace, keep], key="%s shape=%s keep=%s strided rows" % (a.dtype.descr, a.shape, keep))
+                    if a.ndim == 2:
+                        wide = np.zeros((a.shape[0], a.shape[1] * 2), dtype=a.dtype)
+                        wide[:, ::2] = a
+                        yield dict(args=[wide[:, ::2], inplace, keep], key="%s shape=%s keep=%s strided columns" % (a.dtype.descr, a.shape, keep))
     return dom
 
 
